@@ -54,6 +54,9 @@ def compare(M, post, pre):
         if k not in s:
             continue
         if s[k] != v:
+            ub = M.unknown_bits.get(k)
+            if ub and isinstance(v, int) and isinstance(s[k], int) and not ((s[k] ^ v) & ~ub):
+                continue
             d[k] = (s[k], v)
     for i, (b, e, arr) in enumerate(M.mem):
         got = post.get('mem%d' % i)
